@@ -46,6 +46,11 @@ THEOREMS = [
     "Jinns.Wrappers.bare_rejected_when_eq_params_needed",
     "Jinns.Wrappers.bare_rejected_when_output_needs_eq",
     "Jinns.Wrappers.shared_is_slice_of_common",
+    "Jinns.Wrappers.pySlice_length",
+    "Jinns.Wrappers.pyIndex_legal",
+    "Jinns.Wrappers.pyIndex_neg_one",
+    "Jinns.Wrappers.applySlice_legal_nonempty",
+    "Jinns.Wrappers.evalNN_legal_selection_nonempty",
     "Jinns.Wrappers.einsumEntry_eq_sum_prod",
     "Jinns.Wrappers.spinnEntry_formula",
     "Jinns.Wrappers.spinnEntry_eq_gridFormula",
@@ -187,18 +192,36 @@ def _gen_transforms(rng, nin_call, nout, p_eq=0.5):
     return in_t, out_t, eq, width
 
 
+def _gen_index(rng, nout):
+    """an integer index of an existing component, negative (from the end) half of the time"""
+    i = rng.randrange(nout)
+    return i - nout if rng.random() < 0.5 else i
+
+
+def _gen_range(rng, nout):
+    """a slice a:b with Python semantics: bounds absent, non-negative or negative; mostly non-empty"""
+    for _ in range(20):
+        a = rng.choice([None, None] + list(range(-nout, nout + 1)))
+        b = rng.choice([None, None] + list(range(-nout, nout + 2)))
+        lo = 0 if a is None else (max(a + nout, 0) if a < 0 else min(a, nout))
+        hi = nout if b is None else (max(b + nout, 0) if b < 0 else min(b, nout))
+        if lo < hi or rng.random() < 0.05:
+            return {"range": [a, b]}
+    return {"range": [None, None]}
+
+
+def _gen_slice(rng, nout):
+    return {"index": _gen_index(rng, nout)} if rng.random() < 0.5 else _gen_range(rng, nout)
+
+
 def _gen_shared(rng, nout):
-    if rng.random() < 0.6:
+    if rng.random() < 0.5:
         return None
-    k = rng.randint(1, 3)
-    out = []
-    for _ in range(k):
-        if rng.random() < 0.5:
-            out.append({"index": rng.randrange(nout)})
-        else:
-            a = rng.randrange(nout)
-            out.append({"range": [a, rng.randint(a + 1, nout + 1)]})
-    return out
+    r = rng.random()
+    if r < 0.25 and nout >= 2:
+        # the idiom of the notebooks: leading components, then the last one
+        return [{"range": [None, nout - 1]}, {"index": -1}]
+    return [_gen_slice(rng, nout) for _ in range(rng.randint(1, 3))]
 
 
 def _gen_calls(rng, eq_type, dim_x, rejections=True):
@@ -235,7 +258,7 @@ def gen_pinn(rng, eq_type=None, force=None):
     in_t, out_t, eq, width = _gen_transforms(rng, nin_call, nout)
     layers = _arch(rng, width, nout, rng.randint(1, 3), lead_act=rng.random() < 0.1)
     shared = _gen_shared(rng, nout) if (nout > 1 or rng.random() < 0.1) else None
-    ss = rng.choice([None, None, {"index": rng.randrange(nout)}, {"range": [0, rng.randint(1, nout)]}])
+    ss = rng.choice([None, None, {"index": _gen_index(rng, nout)}, _gen_range(rng, nout)])
     via = "create" if rng.random() < 0.7 else "direct"
     if via == "direct" and (ss is None or "index" in ss):
         ss = {"range": [0, nout]}
@@ -326,7 +349,8 @@ def gen_hyper(rng, force_default_list=False):
     for s in arch:
         hyper_layers.append({"act": s["act"]} if "act" in s else _lin(rng, s["lin"][0], s["lin"][1], wmax=1))
     shared = _gen_shared(rng, nout) if nout > 1 else None
-    ss = rng.choice([None, {"index": rng.randrange(nout)}]) if via == "create" else {"range": [0, nout]}
+    ss = rng.choice([None, {"index": _gen_index(rng, nout)}, _gen_range(rng, nout)]) if via == "create" \
+        else {"range": [0, nout]}
     calls = [c for c in _gen_calls(rng, eq_type, dim_x, rejections=False)]
     if rng.random() < 0.6:
         calls = [c for c in calls if not c["bare"]] + [c for c in calls if c["bare"]][:1]
@@ -546,7 +570,7 @@ def _mk_slice(s):
         return None
     if "index" in s:
         return s["index"]
-    return slice(s["range"][0], s["range"][1])
+    return slice(s["range"][0], s["range"][1])  # bounds may be None or negative
 
 
 def _set_weights(tree, get_layers, layers):
@@ -577,8 +601,8 @@ def _obs_of(f):
 
 def _ss_obs(u):
     s = u.slice_solution
-    if isinstance(s, slice) and s.step is None and s.start is not None and s.stop is not None:
-        return [int(s.start), int(s.stop)]
+    if isinstance(s, slice) and s.step is None:
+        return [None if s.start is None else int(s.start), None if s.stop is None else int(s.stop)]
     return None
 
 
